@@ -418,6 +418,30 @@ func (w *World) runPath(wk *worker, fn *ssa.Function, prefix []int, opt Options)
 	return ps
 }
 
+// runLazyInit interprets the synthetic init of a non-target package.  An
+// initialiser the engine cannot execute ends the attempt; variables
+// initialised before it keep their values, the others stay unavailable.
+func (i *interpreter) runLazyInit(pkg *ssa.Package) {
+	if i.lazyInit == nil {
+		i.lazyInit = map[*ssa.Package]int{}
+	}
+	i.lazyInit[pkg] = 1
+	defer func() {
+		i.lazyInit[pkg] = 2
+		if r := recover(); r != nil {
+			if pa, ok := r.(pathAbort); ok && pa.kind != "unsupported" && pa.kind != "engine" {
+				panic(r) // budget / infeasible: belongs to the path
+			}
+			if _, ok := r.(exitPanic); ok {
+				panic(r)
+			}
+		}
+	}()
+	if f := pkg.Func("init"); f != nil && f.Blocks != nil {
+		callSSABody(i, nil, f, nil)
+	}
+}
+
 // global returns the cell of a package-level variable, created on demand.
 func (i *interpreter) global(g *ssa.Global) *value {
 	if r, ok := i.globals[g]; ok {
@@ -429,7 +453,26 @@ func (i *interpreter) global(g *ssa.Global) *value {
 			i.globals[g] = &cell
 			return &cell
 		}
-		if !strings.HasPrefix(g.Name(), "init$guard") {
+		if g.Pkg.Pkg.Path() == "os" && (g.Name() == "Stdout" || g.Name() == "Stderr") {
+			// the standard streams as handles of the virtual file system
+			std := 1
+			if g.Name() == "Stderr" {
+				std = 2
+			}
+			var f value = &osFile{name: "/dev/" + strings.ToLower(g.Name()), std: std}
+			cell := value(&f)
+			i.globals[g] = &cell
+			return &cell
+		}
+		if !strings.HasPrefix(g.Name(), "init$guard") && i.lazyInit[g.Pkg] != 1 {
+			// best-effort, on demand: run the package's own initialisers (its
+			// imports stay lazy); whatever they cannot compute stays unsupported
+			if i.lazyInit[g.Pkg] == 0 {
+				i.runLazyInit(g.Pkg)
+				if r, ok := i.globals[g]; ok {
+					return r
+				}
+			}
 			panic(pathAbort{"unsupported", "use of uninitialised global of non-target package: " + g.String()})
 		}
 	}
